@@ -122,6 +122,11 @@ func runC15(t *testing.T, tape *sim.Tape, tier string) *Outcome {
 		for i := 0; i < n; i++ {
 			items = append(items, resp.Cmd("PING"))
 		}
+		if tape.Draw(4, "killme") == 3 {
+			// the application ends this connection itself (a command whose executor closes the connection)
+			items = append(items, resp.Cmd("XKILLME"))
+			o.stat("connections_closed_by_an_application_command", 1)
+		}
 		c := cl.addClient(fmt.Sprintf("cli%d", j), addr, items)
 		c.Lockstep = true
 		switch tape.Draw(3, "clend") {
@@ -152,6 +157,10 @@ func runC15(t *testing.T, tape *sim.Tape, tier string) *Outcome {
 			}
 		}
 	}
+	cl.Srv.RegisterExexutor("XKILLME", func(conn *redis.Conn, cmd string, args redis.Arguments) (*redis.Message, error) {
+		conn.Close()
+		return redis.NewOKMessage(), nil
+	})
 	// the application's reload command: its executor restarts the server from inside the command
 	reloads := 0
 	var reloadErr error
@@ -452,7 +461,7 @@ func init() {
 	register(&Check{
 		ID: "C15", Bubble: true, Run: runC15,
 		Runs:   map[string]int{"quick": 16000, "thorough": 1000000},
-		Rule:   "a case is one run: a lifecycle task executing 1..6 drawn calls from {Start, Stop, Restart} (ill-ordered sequences included; a quarter of the TLS runs are preceded by a Start that fails on an unusable certificate and a Stop), 0..4 clients that dial, PING, idle, close or reset at drawn moments, and the accept loops and connection goroutines the server spawns, interleaved by the seeded scheduler at simulated Listen/Accept/Read and at the tagged yield points (start.opened, stop.mid, stop.closed, accept.entry, accept.exit, conn.register, conn.deregister, connmgr.stopped, connmgr.snapshot; each enabled per run by the swarm); half of the runs hold a drawn set of server tasks parked until the call in progress has returned; half of the runs that end with a running server keep a plain and a TLS connection idle for 1 s .. 25 h of simulated time and then use them again; a quarter of the runs that end with a running server add CONFIG SET port/tls-port (0, non-numeric, negative, another port) from a client followed by Stop; a quarter of them have a client send an application command whose executor calls Restart() from inside the command; after each call returns the system is drained and the promised state is probed (dial+PING; bind probe, closed sockets, parked tasks, goroutine profile, registry); distinct = distinct event-log hashes",
+		Rule:   "a case is one run: a lifecycle task executing 1..6 drawn calls from {Start, Stop, Restart} (ill-ordered sequences included; a quarter of the TLS runs are preceded by a Start that fails on an unusable certificate and a Stop), 0..4 clients that dial, PING, idle, close or reset at drawn moments (a quarter of them end with a command whose executor closes the connection), and the accept loops and connection goroutines the server spawns, interleaved by the seeded scheduler at simulated Listen/Accept/Read and at the tagged yield points (start.opened, stop.mid, stop.closed, accept.entry, accept.exit, conn.register, conn.deregister, connmgr.stopped, connmgr.snapshot; each enabled per run by the swarm); half of the runs hold a drawn set of server tasks parked until the call in progress has returned; half of the runs that end with a running server keep a plain and a TLS connection idle for 1 s .. 25 h of simulated time and then use them again; a quarter of the runs that end with a running server add CONFIG SET port/tls-port (0, non-numeric, negative, another port) from a client followed by Stop; a quarter of them have a client send an application command whose executor calls Restart() from inside the command; after each call returns the system is drained and the promised state is probed (dial+PING; bind probe, closed sockets, parked tasks, goroutine profile, registry); distinct = distinct event-log hashes",
 		Real:   []string{"redis.Server Start/Stop/Restart/open/close, accept loops, connection goroutines, ConnManager"},
 		Stub:   []string{"network: simulated listeners (EADDRINUSE while bound) and connections", "handler: reference store"},
 		Assume: []string{"a goroutine that is merely not scheduled yet is not a leak: leaks are judged after draining every enabled task", "half of the runs enable the TLS port as well (real crypto/tls clients, some stalled in their handshake)"},
